@@ -51,6 +51,14 @@ func RunLdCols(cfgc core.Config, scope core.Scope) *core.Result {
 	return res
 }
 
+// LdDelegated lists "routine|operand" pairs whose leading dimension is checked
+// by the callee that receives the operand first, with the reason.
+var LdDelegated = map[string]string{
+	"lapack/gonum.Implementation.Dorml2|c": "every statement that touches c hands it with ldc to Dlarf, whose prologue panics with the same badLdC before writing",
+	"lapack/gonum.Implementation.Dormlq|c": "c is handed with ldc to Dorml2 (unblocked) or Dlarfb, which check the leading dimension of C before writing",
+	"lapack/gonum.Implementation.Dormhr|c": "c is handed with ldc to Dormqr, whose prologue checks ldc < max(1, n)",
+}
+
 func ldColsFunc(res *core.Result, info *types.Info, name string, fd *ast.FuncDecl) {
 	params := map[types.Object]bool{}
 	for _, fl := range fd.Type.Params.List {
@@ -248,6 +256,12 @@ func ldColsFunc(res *core.Result, info *types.Info, name string, fd *ast.FuncDec
 		}
 		if len(seen) == 0 {
 			res.Count("length_checks_without_any_ld_check", 1)
+			if _, ok := LdDelegated[name+"|"+lc.p.Name()]; ok {
+				res.Count("ld_checks_delegated_by_table", 1)
+				continue
+			}
+			res.Add(core.Finding{Rule: "ARGS.ldcols", Key: fmt.Sprintf("ARGS.ldcols|%s|%s|none", name, lc.p.Name()), Pos: core.Pos(lc.pos), Func: name,
+				Msg: fmt.Sprintf("the length of %s is checked against rows of %s elements, but its leading dimension %s is not checked at all (a check of another operand's leading dimension written twice?): rows may overlap for an admitted %s", lc.p.Name(), lc.cols, lc.ld.Name(), lc.ld.Name())})
 			continue
 		}
 		flag := ""
@@ -257,4 +271,76 @@ func ldColsFunc(res *core.Result, info *types.Info, name string, fd *ast.FuncDec
 		res.Add(core.Finding{Rule: "ARGS.ldcols", Key: fmt.Sprintf("ARGS.ldcols|%s|%s|%s", name, lc.p.Name(), lc.cols), Pos: core.Pos(lc.pos), Func: name,
 			Msg: fmt.Sprintf("the length check of %s%s uses rows of %s elements, but no check of %s rejects a leading dimension below %s there (checks present: %s): rows may overlap for an admitted %s", lc.p.Name(), flag, lc.cols, lc.ld.Name(), lc.cols, strings.Join(seen, "; "), lc.ld.Name())})
 	}
+}
+
+// RunWorkQuery implements ARGS.workquery: a routine with a workspace query
+// (lwork == -1) stores the answer in work[0], so its shortWork check has to
+// guarantee one element in query mode too: the extent that len(work) is
+// compared with evaluates to at least 1 for lwork == -1 — `max(1, lwork)`,
+// not the bare `lwork` (for which the comparison `len(work) < -1` is never
+// true and an empty work is met by an index-out-of-range fault instead of the
+// documented panic).
+func RunWorkQuery(cfgc core.Config, scope core.Scope) *core.Result {
+	res := core.NewResult("WORKQUERY")
+	res.Rules = append(res.Rules, "ARGS.workquery: in a routine with an lwork parameter the extent of the shortWork check len(work) < E is at least 1 when lwork == -1 (E is max(1, …), not the bare lwork)")
+	res.Configs = append(res.Configs, cfgc.String())
+	pkgs, err := core.Load(cfgc, scope.Patterns...)
+	if err != nil {
+		res.Brokenf("%v", err)
+		return res
+	}
+	for _, pkg := range pkgs {
+		info := pkg.TypesInfo
+		for _, file := range pkg.Syntax {
+			if !scope.InFile(file.Pos()) {
+				continue
+			}
+			for _, d := range file.Decls {
+				fd, ok := d.(*ast.FuncDecl)
+				if !ok || fd.Body == nil || !ast.IsExported(fd.Name.Name) {
+					continue
+				}
+				var lwork, work types.Object
+				for _, fl := range fd.Type.Params.List {
+					for _, n := range fl.Names {
+						switch n.Name {
+						case "lwork":
+							lwork = info.Defs[n]
+						case "work":
+							work = info.Defs[n]
+						}
+					}
+				}
+				if lwork == nil || work == nil {
+					continue
+				}
+				name := core.FuncName(pkg, fd)
+				ast.Inspect(fd.Body, func(n ast.Node) bool {
+					be, ok := n.(*ast.BinaryExpr)
+					if !ok || be.Op != token.LSS {
+						return true
+					}
+					c, ok := ast.Unparen(be.X).(*ast.CallExpr)
+					if !ok || len(c.Args) != 1 {
+						return true
+					}
+					if id, ok := c.Fun.(*ast.Ident); !ok || id.Name != "len" {
+						return true
+					}
+					if id, ok := ast.Unparen(c.Args[0]).(*ast.Ident); !ok || core.ObjOf(info, id) != work {
+						return true
+					}
+					res.Obligations++
+					res.Count("work_length_checks_in_query_routines", 1)
+					// evaluate E with lwork = -1: bare lwork is -1
+					if id, ok := ast.Unparen(be.Y).(*ast.Ident); ok && core.ObjOf(info, id) == lwork {
+						res.Add(core.Finding{Rule: "ARGS.workquery", Key: "ARGS.workquery|" + name, Pos: core.Pos(be.Pos()), Func: name,
+							Msg: fmt.Sprintf("%s checks len(work) < lwork: for a workspace query (lwork == -1) this is never true, so an empty work reaches the store of the answer into work[0] and faults with an index error instead of the documented shortWork panic; the check has to be len(work) < max(1, lwork)", name)})
+					}
+					return true
+				})
+			}
+		}
+	}
+	return res
 }
